@@ -168,6 +168,7 @@ fn as_lp_solution_case(r: &mut Rng, out: &mut Vec<Case>) {
                 by_name: names.iter().map(|n| (n.clone(), s.value_of(n).map(crate::child::Val::Real))).collect(),
                 constraints: s.constraints().iter().map(|(k, v)| (k.clone(), crate::child::F(*v))).collect(),
                 duals: s.shadow_prices().iter().map(|(k, v)| (k.clone(), crate::child::F(*v))).collect(),
+                accessors: vec![],
             };
             gen_lp::solution(&sol)
         }
